@@ -724,6 +724,10 @@ struct StackValues {
 
 impl Values {
     /// Update the values by applying the provided operation.
+    ///
+    /// The positions _h_ and _v_ are 32-bit integers.
+    /// DVI data that moves them out of this range is malformed;
+    /// for such data the positions wrap around rather than panic.
     pub fn update(&mut self, op: &Op) -> bool {
         match op {
             Op::TypesetChar { char, move_h } => {
@@ -740,7 +744,7 @@ impl Values {
                 move_h,
             } => {
                 if *move_h {
-                    self.top.h += *width;
+                    self.top.h = self.top.h.wrapping_add(*width);
                     *width != 0
                 } else {
                     false
@@ -771,17 +775,17 @@ impl Values {
                 changed
             }
             Op::Right(d) => {
-                self.top.h += *d;
+                self.top.h = self.top.h.wrapping_add(*d);
                 *d != 0
             }
             Op::Move(var) => {
                 let d = self.top.vars[*var as usize];
                 match var {
                     Var::W | Var::X => {
-                        self.top.h += d;
+                        self.top.h = self.top.h.wrapping_add(d);
                     }
                     Var::Y | Var::Z => {
-                        self.top.v += d;
+                        self.top.v = self.top.v.wrapping_add(d);
                     }
                 }
                 d != 0
@@ -791,10 +795,10 @@ impl Values {
                 self.top.vars[*var as usize] = *i;
                 match var {
                     Var::W | Var::X => {
-                        self.top.h += *i;
+                        self.top.h = self.top.h.wrapping_add(*i);
                     }
                     Var::Y | Var::Z => {
-                        self.top.v += *i;
+                        self.top.v = self.top.v.wrapping_add(*i);
                     }
                 }
                 // This is only a noop if the old and new values are both zero.
@@ -803,7 +807,7 @@ impl Values {
                 old != 0 || *i != 0
             }
             Op::Down(d) => {
-                self.top.v += *d;
+                self.top.v = self.top.v.wrapping_add(*d);
                 *d != 0
             }
             Op::EnableFont(f) => {
